@@ -343,6 +343,13 @@ def gen_del_case(rng):
         k = rng.choice(_D_NEW)
         if all(sc_py(k2) != k for k2, _ in body['m']):
             body['m'].insert(rng.randrange(len(body['m']) + 1), [sc_json(k), _d_sub(rng, rng.choice([0, 1]))])
+    # a NEW key of the deleting mapping whose text spells a nested path that the pruning removes (`m: !del {'opt.lr': 5}` over
+    # `m: {opt: {lr: 1}}`): one key, not the nested path - it is new and must be refused (seeded change S7-C08: paths compared as text)
+    nested = [pth for pth, nd in G.paths_of(M(entries)) if len(pth) >= 2 and all(isinstance(x, str) for x in pth)]
+    if nested and rng.random() < 0.3:
+        k = '.'.join(rng.choice(nested))
+        if all(sc_py(k2) != k for k2, _ in body['m']):
+            body['m'].insert(rng.randrange(len(body['m']) + 1), [sc_json(k), S(rng.choice([5, 'v']))])
     value = M([(sc_py(k), c) for k, c in body['m']], kw={'del': True})
     over = G.nest(prefix + ['m'], value)
     over['kw'] = {'new': False}; over['t'] = {'k': 'plain'}
@@ -635,9 +642,11 @@ class C08(MergeFamProp):
             p = tuple(sc_py(k) for k in NodePath.get_list_path(named))
         except Exception:
             return f'MergeError names an unparsable path {named!r}'
-        if p not in wp:
+        # the message holds the path as text: a single key such as 'opt.lr' reads like the nested path
+        same_text = [q for q in wp if NodePath.join_path(list(q)) == NodePath.join_path(list(p))]
+        if p not in wp and not same_text:
             return f'MergeError names {named!r}, which the override does not write'
-        if p in bpaths:
+        if all(q in bpaths for q in ([p] if p in wp else []) + same_text):
             return f'MergeError names {named!r}, which exists in the base config'
         return None
 
